@@ -540,3 +540,576 @@ Proof. induction ops as [|o ops IH]; cbn; auto. intros st I. apply IH. apply Inv
 
 Lemma Inv_run g ops : Inv g (run true g ops).
 Proof. apply Inv_fold. apply Inv_init. Qed.
+
+(* ------------------------------------------------------------------ simulation: model vs ledger *)
+
+Definition kept_of (r : irec) : list iface := match i_prov r with Some k => k | None => [] end.
+
+Definition crel (r : crec) (l : lcls) : Prop :=
+  c_bases r = lc_bases l /\ c_inherit r = lc_inherit l /\
+  same (c_decl r) (lc_kept l) /\ same (c_cprov r) (lc_oasked l).
+Definition irel (r : irec) (l : lobj) : Prop :=
+  i_cls r = lo_cls l /\ i_live r = lo_live l /\ same (kept_of r) (lo_kept l).
+Definition R (st : state) (L : ledger) : Prop :=
+  Forall2 crel (classes st) (lcs L) /\ Forall2 irel (insts st) (los L).
+
+Lemma sim_direct cs ls : Forall2 crel cs ls -> forall f c, same (cdirect_f cs f c) (impl_f lc_kept ls f c).
+Proof.
+  intros H. induction f as [|f IH]; intros c; cbn [cdirect_f impl_f]; [apply same_refl|].
+  destruct (nth_error cs c) as [r|] eqn:E.
+  - destruct (Forall2_nth_l _ _ _ _ _ H E) as [l [E' [Hb [Hi [Hd _]]]]]. rewrite E'.
+    apply same_app; auto. rewrite <- Hi, <- Hb. destruct (c_inherit r); [|apply same_refl].
+    apply same_flat_map. intros; apply IH.
+  - rewrite (Forall2_nth_none _ _ _ _ H E). apply same_refl.
+Qed.
+
+Lemma cflat_same g st L c : R st L -> same (cflat g st c) (closure g (impl_lo L c)).
+Proof. intros [H _]. apply closure_same. apply sim_direct. auto. Qed.
+
+Lemma fresh_now_keepnew g L c l : fresh_now g L c l = keepnew (closure g (impl_lo L c)) l.
+Proof. reflexivity. Qed.
+
+Lemma R_set_class ev st L c r' l' : R st L -> crel r' l' -> R (set_class ev st c r') (lset_cls L c l').
+Proof. intros [H1 H2] H. split; cbn; auto. apply Forall2_upd; auto. Qed.
+
+Lemma R_class_ordered g st L c b a l :
+  R st L -> same (b ++ a) l -> R (class_ordered true g st c b a) (l_declare g L c l).
+Proof.
+  intros HR Hs. unfold class_ordered, l_declare. destruct (nth_error (classes st) c) as [r|] eqn:E.
+  - destruct (Forall2_nth_l _ _ _ _ _ (proj1 HR) E) as [rl [E' [Hb [Hi [Hd Hp]]]]]. rewrite E'.
+    apply R_set_class; auto.
+    split; [|split; [|split]]; cbn [c_bases c_decl c_inherit c_cprov lc_bases lc_kept lc_inherit lc_oasked]; auto.
+    intro x; split; intro H.
+    + rewrite In_dedup in H. rewrite !in_app_iff, !In_keepnew in H. rewrite fresh_now_keepnew.
+      apply in_app_iff. rewrite In_keepnew. pose proof (Hs x) as Hx. rewrite in_app_iff in Hx.
+      pose proof (cflat_same g st L c HR x). pose proof (Hd x). tauto.
+    + rewrite In_dedup. rewrite !in_app_iff, !In_keepnew. rewrite fresh_now_keepnew in H.
+      apply in_app_iff in H. rewrite In_keepnew in H. pose proof (Hs x) as Hx. rewrite in_app_iff in Hx.
+      pose proof (cflat_same g st L c HR x). pose proof (Hd x). tauto.
+  - rewrite (Forall2_nth_none _ _ _ _ (proj1 HR) E). auto.
+Qed.
+
+Lemma same_filter_split (p : nat -> bool) l : same (filter p l ++ filter (fun x => negb (p x)) l) l.
+Proof.
+  intro x. rewrite in_app_iff, !filter_In, negb_true_iff. destruct (p x); intuition congruence.
+Qed.
+
+Lemma R_class_implements g st L c l : R st L -> R (class_implements true g st c l) (l_declare g L c l).
+Proof.
+  intros HR. unfold class_implements. destruct (nth_error (classes st) c) as [r|] eqn:E.
+  - apply R_class_ordered; auto. apply same_filter_split.
+  - unfold l_declare. rewrite (Forall2_nth_none _ _ _ _ (proj1 HR) E). auto.
+Qed.
+
+Lemma R_class_only g st L c l : R st L -> R (class_only true g st c l) (l_only L c l).
+Proof.
+  intros HR. unfold class_only, l_only. destruct (nth_error (classes st) c) as [r|] eqn:E.
+  - destruct (Forall2_nth_l _ _ _ _ _ (proj1 HR) E) as [rl [E' [Hb [Hi [Hd Hp]]]]]. rewrite E'.
+    pose proof (nth_error_lt _ _ _ E) as Hlt.
+    unfold class_ordered. cbn [set_class classes]. rewrite nth_error_upd_eq by auto.
+    unfold set_class. cbn [classes insts cache]. rewrite upd_upd.
+    destruct HR as [H1 H2]. split; cbn [classes insts lset_cls lcs los]; auto.
+    apply Forall2_upd; auto.
+    split; [|split; [|split]]; cbn [c_bases c_decl c_inherit c_cprov lc_bases lc_kept lc_inherit lc_oasked]; auto.
+    assert (Ec : cflat g (mkS (upd (classes st) c (mkC (c_bases r) [] false (c_cprov r))) (insts st)
+                              (evict true (classes st) c (cache st))) c = []).
+    { unfold cflat, cdirect. cbn [classes cdirect_f]. rewrite nth_error_upd_eq by auto. reflexivity. }
+    rewrite Ec, !keepnew_nil, !app_nil_r. apply same_dedup.
+  - rewrite (Forall2_nth_none _ _ _ _ (proj1 HR) E). auto.
+Qed.
+
+Lemma R_direct_inst g st L o args fa fk :
+  R st L -> Inv g st ->
+  (forall ri rl, nth_error (insts st) o = Some ri -> nth_error (los L) o = Some rl -> same args (fk (lo_kept rl))) ->
+  R (direct_inst g st o args) (l_object g L (TInst o) fa fk).
+Proof.
+  intros HR I Ha. unfold direct_inst, l_object. destruct (nth_error (insts st) o) as [ri|] eqn:E.
+  - destruct (Forall2_nth_l _ _ _ _ _ (proj2 HR) E) as [rl [E' [Hc [Hl Hk]]]]. rewrite E', <- Hl.
+    destruct (i_live ri); auto.
+    destruct (provides g st (i_cls ri) args) as [st1 k] eqn:P.
+    destruct (provides_spec _ _ _ _ _ _ I P) as [Hkk [Hcs [His _]]].
+    destruct HR as [H1 H2]. split; cbn [classes insts lset_obj lcs los]; rewrite ?Hcs, ?His; auto.
+    apply Forall2_upd; auto. repeat split; cbn [i_cls i_live kept_of i_prov lo_cls lo_live lo_kept]; auto; intro H.
+    + rewrite fresh_now_keepnew, <- Hc. subst k.
+      eapply (keepnew_same _ _ _ _ (cflat_same g st L (i_cls ri) (conj H1 H2)) (Ha _ _ eq_refl E')); auto.
+    + rewrite fresh_now_keepnew, <- Hc in H. subst k.
+      eapply (keepnew_same _ _ _ _ (cflat_same g st L (i_cls ri) (conj H1 H2)) (Ha _ _ eq_refl E')); auto.
+  - rewrite (Forall2_nth_none _ _ _ _ (proj2 HR) E). auto.
+Qed.
+
+Lemma R_direct_cls g st L c args fa fk :
+  R st L ->
+  (forall rc rl, nth_error (classes st) c = Some rc -> nth_error (lcs L) c = Some rl -> same args (fa (lc_oasked rl))) ->
+  R (direct_cls st c args) (l_object g L (TCls c) fa fk).
+Proof.
+  intros HR Ha. unfold direct_cls, l_object. destruct (nth_error (classes st) c) as [rc|] eqn:E.
+  - destruct (Forall2_nth_l _ _ _ _ _ (proj1 HR) E) as [rl [E' [Hb [Hi [Hd Hp]]]]]. rewrite E'.
+    destruct HR as [H1 H2]. split; cbn [classes insts lset_cls lcs los]; auto.
+    apply Forall2_upd; auto. split; [|split; [|split]]; cbn; auto. apply (Ha _ _ eq_refl E').
+  - rewrite (Forall2_nth_none _ _ _ _ (proj1 HR) E). auto.
+Qed.
+
+Lemma dpb_same st L t :
+  R st L -> same (dpb st t) (lo_dpb L t).
+Proof.
+  intros HR. unfold dpb, lo_dpb. destruct t as [o|c].
+  - destruct (nth_error (insts st) o) as [ri|] eqn:E.
+    + destruct (Forall2_nth_l _ _ _ _ _ (proj2 HR) E) as [rl [E' [_ [_ Hk]]]]. rewrite E'.
+      unfold kept_of in Hk. destruct (i_prov ri); auto. eapply same_trans; [apply same_dedup|auto].
+    + rewrite (Forall2_nth_none _ _ _ _ (proj2 HR) E). apply same_refl.
+  - destruct (nth_error (classes st) c) as [rc|] eqn:E.
+    + destruct (Forall2_nth_l _ _ _ _ _ (proj1 HR) E) as [rl [E' [_ [_ [_ Hp]]]]]. rewrite E'.
+      eapply same_trans; [apply same_dedup|auto].
+    + rewrite (Forall2_nth_none _ _ _ _ (proj1 HR) E). apply same_refl.
+Qed.
+
+Lemma R_directly g st L t fa fk (args : list iface) :
+  R st L -> Inv g st ->
+  (same args (fk (lo_dpb L t)) /\ same args (fa (lo_dpb L t))) ->
+  R (directly g st t args) (l_object g L t fa fk).
+Proof.
+  intros HR I [Hk Ha]. destruct t as [o|c]; cbn [directly].
+  - apply R_direct_inst; auto. intros ri rl E E'. unfold lo_dpb in Hk. rewrite E' in Hk. auto.
+  - apply R_direct_cls; auto. intros rc rl E E'. unfold lo_dpb in Ha. rewrite E' in Ha. auto.
+Qed.
+
+Lemma R_step g st L o : R st L -> Inv g st -> R (step true g st o) (lstep g L o).
+Proof.
+  intros HR I. destruct o; cbn [step lstep];
+    try (apply R_class_implements; auto); try (apply R_class_only; auto).
+  - (* NewClass *) destruct HR as [H1 H2]. split; cbn; auto. apply Forall2_app; auto.
+    constructor; [|constructor]. rewrite (F2_length _ _ _ H1). repeat split; cbn; auto; apply same_refl.
+  - (* NewInstance *) rewrite (F2_length _ _ _ (proj1 HR)).
+    destruct (Nat.ltb c (length (lcs L))); auto. destruct HR as [H1 H2]. split; cbn; auto.
+    apply Forall2_app; auto. constructor; [|constructor]. repeat split; cbn; auto.
+  - (* DropInstance *) destruct (nth_error (insts st) o) as [ri|] eqn:E.
+    + destruct (Forall2_nth_l _ _ _ _ _ (proj2 HR) E) as [rl [E' [Hc [Hl Hk]]]]. rewrite E'.
+      destruct HR as [H1 H2]. split; cbn; auto. apply Forall2_upd; auto. repeat split; cbn; auto; apply Hk.
+    + rewrite (Forall2_nth_none _ _ _ _ (proj2 HR) E). auto.
+  - (* ClassImplementsFirst *) apply R_class_ordered; auto. apply same_refl.
+  - (* DirectlyProvides *) apply R_directly; auto. split; apply same_refl.
+  - (* AlsoProvides *) apply R_directly; auto.
+    split; apply same_app; try apply same_refl; apply dpb_same; auto.
+  - (* NoLongerProvides *) apply R_directly; auto.
+    split; apply same_filter; auto; apply dpb_same; auto.
+  - (* Provider *) apply R_directly; auto. split; apply same_refl.
+Qed.
+
+Lemma R_init : R init linit.
+Proof. split; constructor. Qed.
+
+Lemma R_fold g ops : forall st L, R st L -> Inv g st ->
+  R (fold_left (step true g) ops st) (fold_left (lstep g) ops L).
+Proof.
+  induction ops as [|o ops IH]; cbn; auto. intros st L HR I. apply IH; [apply R_step|apply Inv_step]; auto.
+Qed.
+
+Lemma R_run g ops : R (run true g ops) (lrun g ops).
+Proof. apply R_fold; [apply R_init|apply Inv_init]. Qed.
+
+(* ------------------------------------------------------------------ the model answers the lower bound *)
+
+Lemma spec_direct_same st L t : R st L -> same (spec_direct st t) (lo_direct L t).
+Proof.
+  intros HR. unfold spec_direct, lo_direct. destruct t as [o|c].
+  - destruct (nth_error (insts st) o) as [ri|] eqn:E.
+    + destruct (Forall2_nth_l _ _ _ _ _ (proj2 HR) E) as [rl [E' [Hc [_ Hk]]]]. rewrite E', <- Hc.
+      pose proof (sim_direct _ _ (proj1 HR) (S (i_cls ri)) (i_cls ri)) as Hs.
+      unfold kept_of in Hk. destruct (i_prov ri).
+      * apply same_app; auto.
+      * intro x. rewrite in_app_iff. specialize (Hk x). specialize (Hs x). cbn in Hk.
+        unfold cdirect, impl_lo. tauto.
+    + rewrite (Forall2_nth_none _ _ _ _ (proj2 HR) E). apply same_refl.
+  - destruct (nth_error (classes st) c) as [rc|] eqn:E.
+    + destruct (Forall2_nth_l _ _ _ _ _ (proj1 HR) E) as [rl [E' [_ [_ [_ Hp]]]]]. rewrite E'. auto.
+    + rewrite (Forall2_nth_none _ _ _ _ (proj1 HR) E). apply same_refl.
+Qed.
+
+Lemma provided_same g st L t : R st L -> same (provided g st t) (lo_provided g L t).
+Proof. intros HR. apply closure_same. apply spec_direct_same. auto. Qed.
+
+Lemma model_is_lower_bound_lemma g ops :
+  (forall t, same (provided g (run true g ops) t) (lo_provided g (lrun g ops) t)) /\
+  (forall c, same (implemented g (run true g ops) c) (lo_implemented g (lrun g ops) c)) /\
+  (forall t, same (dpb (run true g ops) t) (lo_dpb (lrun g ops) t)).
+Proof.
+  pose proof (R_run g ops) as HR. split; [|split]; intros.
+  - apply provided_same; auto.
+  - apply cflat_same; auto.
+  - apply dpb_same; auto.
+Qed.
+
+Lemma provided_within_ledger_lemma g ops :
+  (forall t, admissible (lo_provided g (lrun g ops) t) (hi_provided g (lrun g ops) t)
+                        (provided g (run true g ops) t)) /\
+  (forall c, admissible (lo_implemented g (lrun g ops) c) (hi_implemented g (lrun g ops) c)
+                        (implemented g (run true g ops) c)).
+Proof.
+  destruct (model_is_lower_bound_lemma g ops) as [H1 [H2 _]]. pose proof (Kinv_lrun g ops) as K.
+  split; intros; split.
+  - apply same_incl, same_sym, H1.
+  - eapply incl_tran; [apply same_incl, H1|apply lo_incl_hi_provided; auto].
+  - apply same_incl, same_sym, H2.
+  - eapply incl_tran; [apply same_incl, H2|]. apply closure_incl. apply lo_incl_hi_impl; auto.
+Qed.
+
+(* ------------------------------------------------------------------ I.providedBy(ob) <-> I in providedBy(ob) *)
+
+Lemma existsb_ext_closure g l i : existsb (fun y => ext g y i) l = true <-> In i (closure g l).
+Proof.
+  rewrite existsb_exists, In_closure. unfold ext.
+  split; intros [y [Hy H]]; exists y; split; auto; apply mem_nat_In; auto.
+Qed.
+
+Lemma I_providedBy_iff_lemma g st :
+  (forall t i, i_providedBy g st t i = true <-> In i (provided g st t)) /\
+  (forall c i, i_implementedBy g st c i = true <-> In i (implemented g st c)).
+Proof. split; intros; apply existsb_ext_closure. Qed.
+
+(* ------------------------------------------------------------------ one-step non-interference *)
+
+Definition cframe (c : cls) (st st' : state) : Prop :=
+  insts st' = insts st /\
+  (forall d, depends st d c = false -> cdirect st' d = cdirect st d /\ depends st' d c = false) /\
+  (forall c', spec_direct st' (TCls c') = spec_direct st (TCls c')).
+
+Lemma cframe_refl c st : cframe c st st.
+Proof. repeat split; auto. Qed.
+
+Lemma cframe_trans c st1 st2 st3 : cframe c st1 st2 -> cframe c st2 st3 -> cframe c st1 st3.
+Proof.
+  intros [A1 [B1 C1]] [A2 [B2 C2]]. split; [congruence|split].
+  - intros d Hd. destruct (B1 d Hd) as [E1 D1]. destruct (B2 d D1) as [E2 D2]. split; congruence.
+  - intros c'. rewrite C2. apply C1.
+Qed.
+
+Lemma cframe_set_class ev c st r r' :
+  nth_error (classes st) c = Some r -> c_cprov r' = c_cprov r -> cframe c st (set_class ev st c r').
+Proof.
+  intros E Hp. split; [reflexivity|split].
+  - intros d Hd. unfold cdirect, depends, set_class in *. cbn [classes]. split.
+    + apply cdirect_f_upd; auto.
+    + rewrite depends_f_upd; auto.
+  - intros c'. cbn [spec_direct set_class classes]. destruct (Nat.eq_dec c c') as [<-|Hne].
+    + rewrite nth_error_upd_eq by (eapply nth_error_lt; eauto). rewrite E. auto.
+    + rewrite nth_error_upd_ne by auto. auto.
+Qed.
+
+Lemma cframe_class_ordered ev g c st b a : cframe c st (class_ordered ev g st c b a).
+Proof.
+  unfold class_ordered. destruct (nth_error (classes st) c) as [r|] eqn:E; [|apply cframe_refl].
+  eapply cframe_set_class; eauto.
+Qed.
+
+Lemma cframe_class_implements ev g c st l : cframe c st (class_implements ev g st c l).
+Proof.
+  unfold class_implements. destruct (nth_error (classes st) c) as [r|] eqn:E; [|apply cframe_refl].
+  apply cframe_class_ordered.
+Qed.
+
+Lemma cframe_class_only ev g c st l : cframe c st (class_only ev g st c l).
+Proof.
+  unfold class_only. destruct (nth_error (classes st) c) as [r|] eqn:E; [|apply cframe_refl].
+  eapply cframe_trans; [|apply cframe_class_ordered]. eapply cframe_set_class; eauto.
+Qed.
+
+Lemma dpb_cls st c : dpb st (TCls c) = dedup (spec_direct st (TCls c)).
+Proof. cbn. destruct (nth_error (classes st) c); auto. Qed.
+
+Lemma provides_frame g st d args st1 k :
+  provides g st d args = (st1, k) -> classes st1 = classes st /\ insts st1 = insts st.
+Proof.
+  unfold provides. destruct (cache_get (d, args) (cache st)); intros H; inversion H; subst; auto.
+Qed.
+
+Lemma directly_frame g st t args :
+  (forall d, cdirect (directly g st t args) d = cdirect st d) /\
+  (forall t', t' <> t -> spec_direct (directly g st t args) t' = spec_direct st t' /\
+                         dpb (directly g st t args) t' = dpb st t').
+Proof.
+  destruct t as [o|c]; cbn [directly].
+  - unfold direct_inst. destruct (nth_error (insts st) o) as [r|] eqn:E; [|split; auto].
+    destruct (i_live r); [|split; auto].
+    destruct (provides g st (i_cls r) args) as [st1 k] eqn:P.
+    destruct (provides_frame _ _ _ _ _ _ P) as [Hc Hi].
+    split.
+    + intros d. unfold cdirect. cbn [classes]. rewrite Hc. auto.
+    + intros [o'|c'] Hne; unfold spec_direct, dpb, cdirect; cbn [classes insts]; rewrite ?Hc, ?Hi; auto.
+      rewrite nth_error_upd_ne by congruence. auto.
+  - unfold direct_cls. destruct (nth_error (classes st) c) as [r|] eqn:E; [|split; auto].
+    assert (Hd : forall f d, cdirect_f (upd (classes st) c (mkC (c_bases r) (c_decl r) (c_inherit r) args)) f d
+                             = cdirect_f (classes st) f d)
+      by (intros; eapply cdirect_f_upd_same; eauto).
+    split.
+    + intros d. unfold cdirect. cbn [classes]. apply Hd.
+    + intros [o'|c'] Hne; unfold spec_direct, dpb, cdirect; cbn [classes insts].
+      * split; auto. destruct (nth_error (insts st) o') as [ri|]; auto. rewrite Hd. auto.
+      * rewrite nth_error_upd_ne by congruence. auto.
+Qed.
+
+Lemma non_interference_lemma ev g st o :
+  (forall c, decl_class o = Some c ->
+     (forall d, depends st d c = false -> implemented g (step ev g st o) d = implemented g st d) /\
+     (forall o' r, nth_error (insts st) o' = Some r -> depends st (i_cls r) c = false ->
+        provided g (step ev g st o) (TInst o') = provided g st (TInst o') /\
+        dpb (step ev g st o) (TInst o') = dpb st (TInst o')) /\
+     (forall c', provided g (step ev g st o) (TCls c') = provided g st (TCls c') /\
+                 dpb (step ev g st o) (TCls c') = dpb st (TCls c'))) /\
+  (forall t, decl_target o = Some t ->
+     (forall d, implemented g (step ev g st o) d = implemented g st d) /\
+     (forall t', t' <> t -> provided g (step ev g st o) t' = provided g st t' /\
+                            dpb (step ev g st o) t' = dpb st t')).
+Proof.
+  split.
+  - intros c Hc.
+    assert (F : cframe c st (step ev g st o)).
+    { destruct o; cbn in Hc; inversion Hc; subst; cbn [step];
+        first [apply cframe_class_implements|apply cframe_class_only|apply cframe_class_ordered]. }
+    destruct F as [Fi [Fd Fc]]. split; [|split].
+    + intros d Hd. unfold implemented, cflat. rewrite (proj1 (Fd d Hd)). auto.
+    + intros o' r E Hd. unfold provided, spec_direct, dpb. rewrite Fi, E.
+      rewrite (proj1 (Fd _ Hd)). auto.
+    + intros c'. rewrite !dpb_cls. unfold provided. rewrite Fc. auto.
+  - intros t Ht.
+    assert (F : (forall d, cdirect (step ev g st o) d = cdirect st d) /\
+                (forall t', t' <> t -> spec_direct (step ev g st o) t' = spec_direct st t' /\
+                                       dpb (step ev g st o) t' = dpb st t')).
+    { destruct o; cbn in Ht; inversion Ht; subst; cbn [step]; apply directly_frame. }
+    destruct F as [Fd Ft]. split.
+    + intros d. unfold implemented, cflat. rewrite Fd. auto.
+    + intros t' Hne. destruct (Ft t' Hne) as [A B]. unfold provided. rewrite A. auto.
+Qed.
+
+(* ------------------------------------------------------------------ history-level non-interference
+   The ledger has no state shared between instances, so what it says about instance o does
+   not depend on the declaration calls made on other instances; the model answers the
+   ledger's lower bound (thanks to the eviction), hence neither does the model. *)
+
+Definition lagree (o : obj) (L L' : ledger) : Prop :=
+  lcs L = lcs L' /\ length (los L) = length (los L') /\ nth_error (los L) o = nth_error (los L') o.
+
+Lemma lagree_refl o L : lagree o L L.
+Proof. repeat split; auto. Qed.
+
+Lemma fresh_now_lcs g L L' c l : lcs L = lcs L' -> fresh_now g L c l = fresh_now g L' c l.
+Proof. unfold fresh_now, impl_lo. intros ->. auto. Qed.
+
+Lemma nth_error_upd_agree {A} (l l' : list A) n m x :
+  length l = length l' -> nth_error l m = nth_error l' m -> nth_error (upd l n x) m = nth_error (upd l' n x) m.
+Proof.
+  intros Hl H. destruct (Nat.eq_dec n m) as [->|Hne].
+  - destruct (lt_dec m (length l)) as [Hm|Hm].
+    + rewrite !nth_error_upd_eq by lia. auto.
+    + assert (E1 : nth_error (upd l m x) m = None) by (apply nth_error_None; rewrite length_upd; lia).
+      assert (E2 : nth_error (upd l' m x) m = None) by (apply nth_error_None; rewrite length_upd; lia).
+      congruence.
+  - rewrite !nth_error_upd_ne by auto. auto.
+Qed.
+
+Lemma nth_error_snoc_agree {A} (l l' : list A) x m :
+  length l = length l' -> nth_error l m = nth_error l' m -> nth_error (l ++ [x]) m = nth_error (l' ++ [x]) m.
+Proof.
+  intros Hl H. destruct (lt_dec m (length l)) as [Hm|Hm].
+  - rewrite !nth_error_app1 by lia. auto.
+  - rewrite !nth_error_app2 by lia. rewrite Hl. auto.
+Qed.
+
+Lemma lagree_cls_only o L L' (F : ledger -> ledger) :
+  lagree o L L' ->
+  (forall M, los (F M) = los M) -> (forall M M', lcs M = lcs M' -> lcs (F M) = lcs (F M')) ->
+  lagree o (F L) (F L').
+Proof. intros [A [B C]] H1 H2. split; [|split]; rewrite ?H1; auto. Qed.
+
+Lemma l_declare_los g L c l : los (l_declare g L c l) = los L.
+Proof. unfold l_declare. destruct (nth_error (lcs L) c); auto. Qed.
+Lemma l_declare_lcs g L L' c l : lcs L = lcs L' -> lcs (l_declare g L c l) = lcs (l_declare g L' c l).
+Proof.
+  intros H. unfold l_declare. rewrite <- H. destruct (nth_error (lcs L) c); auto. cbn.
+  rewrite (fresh_now_lcs g L L') by auto. rewrite H. auto.
+Qed.
+Lemma l_only_los L c l : los (l_only L c l) = los L.
+Proof. unfold l_only. destruct (nth_error (lcs L) c); auto. Qed.
+Lemma l_only_lcs L L' c l : lcs L = lcs L' -> lcs (l_only L c l) = lcs (l_only L' c l).
+Proof. intros H. unfold l_only. rewrite <- H. destruct (nth_error (lcs L) c); auto. cbn. rewrite H. auto. Qed.
+
+Lemma lagree_declare g o L L' c l : lagree o L L' -> lagree o (l_declare g L c l) (l_declare g L' c l).
+Proof.
+  intros H. apply (lagree_cls_only o L L' (fun M => l_declare g M c l)); auto.
+  - intros; apply l_declare_los.
+  - intros; apply l_declare_lcs; auto.
+Qed.
+Lemma lagree_only o L L' c l : lagree o L L' -> lagree o (l_only L c l) (l_only L' c l).
+Proof.
+  intros H. apply (lagree_cls_only o L L' (fun M => l_only M c l)); auto.
+  - intros; apply l_only_los.
+  - intros; apply l_only_lcs; auto.
+Qed.
+
+Lemma lagree_object_cls g o L L' c fa fk :
+  lagree o L L' -> lagree o (l_object g L (TCls c) fa fk) (l_object g L' (TCls c) fa fk).
+Proof.
+  intros H. apply (lagree_cls_only o L L' (fun M => l_object g M (TCls c) fa fk)); auto.
+  - intros M. cbn. destruct (nth_error (lcs M) c); auto.
+  - intros M M' E. cbn. rewrite <- E. destruct (nth_error (lcs M) c); auto. cbn. rewrite E. auto.
+Qed.
+
+Lemma lagree_object_same g o L L' fa fk :
+  lagree o L L' -> lagree o (l_object g L (TInst o) fa fk) (l_object g L' (TInst o) fa fk).
+Proof.
+  intros [A [B C]]. cbn [l_object]. rewrite <- C. destruct (nth_error (los L) o) as [r|] eqn:E.
+  - destruct (lo_live r); [|repeat split; auto; congruence].
+    rewrite (fresh_now_lcs g L L') by auto.
+    split; [|split]; cbn; auto.
+    + rewrite !length_upd. auto.
+    + apply nth_error_upd_agree; auto. congruence.
+  - repeat split; auto. congruence.
+Qed.
+
+Lemma lagree_object_other_l g o o1 L L' fa fk :
+  o1 <> o -> lagree o L L' -> lagree o (l_object g L (TInst o1) fa fk) L'.
+Proof.
+  intros Hne [A [B C]]. cbn [l_object]. destruct (nth_error (los L) o1) as [r|]; [|repeat split; auto].
+  destruct (lo_live r); [|repeat split; auto].
+  split; [|split]; cbn; auto.
+  - rewrite length_upd. auto.
+  - rewrite nth_error_upd_ne by auto. auto.
+Qed.
+
+Lemma lagree_drop g o o1 L L' :
+  lagree o L L' -> lagree o (lstep g L (DropInstance o1)) (lstep g L' (DropInstance o1)).
+Proof.
+  intros [A [B C]]. cbn [lstep]. destruct (Nat.eq_dec o1 o) as [->|Hne].
+  - rewrite <- C. destruct (nth_error (los L) o) as [r|] eqn:E; [|repeat split; auto; congruence].
+    split; [|split]; cbn; auto.
+    + rewrite !length_upd. auto.
+    + apply nth_error_upd_agree; auto. congruence.
+  - assert (H1 : lagree o (match nth_error (los L) o1 with
+                           | Some r => lset_obj L o1 (mkLO (lo_cls r) false (lo_asked r) (lo_kept r))
+                           | None => L end) L).
+    { destruct (nth_error (los L) o1); [|apply lagree_refl]. split; [|split]; cbn; auto.
+      - rewrite length_upd; auto.
+      - rewrite nth_error_upd_ne by auto. auto. }
+    assert (H2 : lagree o L' (match nth_error (los L') o1 with
+                           | Some r => lset_obj L' o1 (mkLO (lo_cls r) false (lo_asked r) (lo_kept r))
+                           | None => L' end)).
+    { destruct (nth_error (los L') o1); [|apply lagree_refl]. split; [|split]; cbn; auto.
+      - rewrite length_upd; auto.
+      - rewrite nth_error_upd_ne by auto. auto. }
+    destruct H1 as [A1 [B1 C1]]. destruct H2 as [A2 [B2 C2]]. split; [|split]; congruence.
+Qed.
+
+Lemma lstep_agree_keep g o L L' p :
+  lagree o L L' -> other_inst_decl o p = false -> lagree o (lstep g L p) (lstep g L' p).
+Proof.
+  intros H Hp.
+  assert (Hobj : forall t fa fk, (match t with TInst o' => negb (Nat.eqb o' o) | _ => false end) = false ->
+                 lagree o (l_object g L t fa fk) (l_object g L' t fa fk)).
+  { intros [o1|c1] fa fk Ht.
+    - apply negb_false_iff, Nat.eqb_eq in Ht. subst. apply lagree_object_same; auto.
+    - apply lagree_object_cls; auto. }
+  destruct p; unfold other_inst_decl in Hp; cbn [decl_target] in Hp; cbn [lstep]; auto;
+    try (apply lagree_declare; auto); try (apply lagree_only; auto).
+  - (* NewClass *) destruct H as [A [B C]]. split; [|split]; cbn; auto. rewrite A. auto.
+  - (* NewInstance *) destruct H as [A [B C]]. rewrite <- A.
+    destruct (Nat.ltb c (length (lcs L))); [|repeat split; auto].
+    split; [|split]; cbn; auto.
+    + rewrite !app_length. cbn. lia.
+    + apply nth_error_snoc_agree; auto.
+  - apply (lagree_drop g); auto.
+Qed.
+
+Lemma lstep_agree_skip g o L L' p :
+  lagree o L L' -> other_inst_decl o p = true -> lagree o (lstep g L p) L'.
+Proof.
+  intros H Hp. unfold other_inst_decl in Hp.
+  destruct p; cbn [decl_target] in Hp; try discriminate; destruct t as [o1|c1]; try discriminate;
+    apply negb_true_iff, Nat.eqb_neq in Hp; cbn [lstep]; apply lagree_object_other_l; auto.
+Qed.
+
+Lemma lagree_fold g o ops : forall L L', lagree o L L' ->
+  lagree o (fold_left (lstep g) ops L)
+           (fold_left (lstep g) (filter (fun p => negb (other_inst_decl o p)) ops) L').
+Proof.
+  induction ops as [|p ops IH]; cbn [fold_left filter]; auto. intros L L' H.
+  destruct (other_inst_decl o p) eqn:E; cbn [negb].
+  - apply IH. apply lstep_agree_skip; auto.
+  - cbn [fold_left]. apply IH. apply lstep_agree_keep; auto.
+Qed.
+
+Lemma lagree_lo g o L L' : lagree o L L' ->
+  lo_provided g L (TInst o) = lo_provided g L' (TInst o) /\ lo_dpb L (TInst o) = lo_dpb L' (TInst o).
+Proof.
+  intros [A [B C]]. unfold lo_provided, lo_direct, lo_dpb, impl_lo. rewrite C, A. auto.
+Qed.
+
+Lemma history_non_interference_lemma g ops o :
+  let ops' := filter (fun p => negb (other_inst_decl o p)) ops in
+  same (provided g (run true g ops) (TInst o)) (provided g (run true g ops') (TInst o)) /\
+  same (dpb (run true g ops) (TInst o)) (dpb (run true g ops') (TInst o)).
+Proof.
+  intros ops'.
+  destruct (model_is_lower_bound_lemma g ops) as [H1 [_ H3]].
+  destruct (model_is_lower_bound_lemma g ops') as [H1' [_ H3']].
+  destruct (lagree_lo g o _ _ (lagree_fold g o ops linit linit (lagree_refl o linit))) as [E1 E2].
+  fold (lrun g ops) in E1, E2. fold ops' in E1, E2. fold (lrun g ops') in E1, E2.
+  split.
+  - eapply same_trans; [apply H1|]. rewrite E1. apply same_sym, H1'.
+  - eapply same_trans; [apply H3|]. rewrite E2. apply same_sym, H3'.
+Qed.
+
+(* ------------------------------------------------------------------ remaining corollaries *)
+
+Lemma cache_entries_fresh_lemma g ops d args k :
+  In ((d, args), k) (cache (run true g ops)) -> k = keepnew (cflat g (run true g ops) d) args.
+Proof. intros H. apply (inv_fresh _ _ (Inv_run g ops) _ _ H). Qed.
+
+Lemma ledger_impl_is_inheritance_lemma g ops c x :
+  (In x (impl_lo (lrun g ops) c) <-> Impl lc_kept (lcs (lrun g ops)) c x) /\
+  (In x (impl_hi (lrun g ops) c) <-> Impl lc_asked (lcs (lrun g ops)) c x).
+Proof.
+  destruct (Kinv_lrun g ops) as [W _]. unfold impl_lo, impl_hi.
+  split; split; try apply impl_f_sound; intro H; apply impl_f_complete; auto.
+Qed.
+
+Lemma raises_iff_lemma ev g st t x :
+  raises g (step ev g st (NoLongerProvides t x)) (NoLongerProvides t x) = true <->
+  In x (provided g (step ev g st (NoLongerProvides t x)) t).
+Proof. cbn [raises]. apply (proj1 (I_providedBy_iff_lemma g _)). Qed.
+
+Lemma class_instance_no_leak_lemma ev g st o :
+  (forall c, decl_target o = Some (TCls c) ->
+     (forall d, implemented g (step ev g st o) d = implemented g st d) /\
+     (forall o', provided g (step ev g st o) (TInst o') = provided g st (TInst o') /\
+                 dpb (step ev g st o) (TInst o') = dpb st (TInst o'))) /\
+  (forall o1, decl_target o = Some (TInst o1) ->
+     forall c, provided g (step ev g st o) (TCls c) = provided g st (TCls c) /\
+               dpb (step ev g st o) (TCls c) = dpb st (TCls c)).
+Proof.
+  destruct (non_interference_lemma ev g st o) as [_ H]. split.
+  - intros c Hc. destruct (H _ Hc) as [A B]. split; auto. intros o'. apply B. discriminate.
+  - intros o1 Ho c. destruct (H _ Ho) as [_ B]. apply B. discriminate.
+Qed.
+
+(* ------------------------------------------------------------------ the fix matters *)
+
+(* the history of finding F1: @implementer(I0) class C; a = C(); directlyProvides(a, I0);
+   classImplementsOnly(C, I1); b = C(); directlyProvides(b, I0) *)
+Definition f1_graph : igraph := [[]; []].
+Definition f1_history : list op :=
+  [NewClass []; Implementer 0 [0]; NewInstance 0; DirectlyProvides (TInst 0) [0];
+   ClassImplementsOnly 0 [1]; NewInstance 0; DirectlyProvides (TInst 1) [0]].
+
+Lemma stale_cache_refuted_lemma :
+  exists g ops o,
+    ~ incl (lo_provided g (lrun g ops) (TInst o)) (provided g (run false g ops) (TInst o)) /\
+    ~ same (provided g (run false g ops) (TInst o))
+           (provided g (run false g (filter (fun p => negb (other_inst_decl o p)) ops)) (TInst o)) /\
+    (exists k, In ((0, [0]), k) (cache (run false g ops)) /\
+               k <> keepnew (cflat g (run false g ops) 0) [0]).
+Proof.
+  exists f1_graph, f1_history, 1. split; [|split].
+  - intro H. specialize (H 0). vm_compute in H. destruct (H (or_introl eq_refl)) as [E|[]]. discriminate.
+  - intro H. specialize (H 0). vm_compute in H. destruct H as [_ H].
+    destruct (H (or_introl eq_refl)) as [E|[]]. discriminate.
+  - exists []. split; [vm_compute; auto|vm_compute; discriminate].
+Qed.
